@@ -34,6 +34,11 @@ type Inst struct {
 	FbKind string `json:"fb_kind,omitempty"` // result | error | func
 	FbVal  int    `json:"fb_val,omitempty"`
 	FbErr  string `json:"fb_err,omitempty"`
+	// Plain: built through the package's convenience constructor instead of a builder (retrypolicy.WithDefaults,
+	// fallback.WithResult/WithError/WithFunc, cachepolicy.With, bulkhead.With, timeout.With, hedgepolicy.WithDelay,
+	// ratelimiter.SmoothWithMaxRate/Bursty); the configuration is the one that constructor documents, no listeners
+	Plain bool `json:"plain,omitempty"`
+
 	// Mute: listeners of this instance that are NOT registered (by name, e.g. "OnStateChanged", "OnOpen", "OnRetry")
 	Mute []string `json:"mute,omitempty"`
 
@@ -61,7 +66,9 @@ type Inst struct {
 
 func (in Inst) String() string {
 	s := in.describe()
-	if len(in.Mute) > 0 {
+	if in.Plain {
+		s += "[convenience constructor]"
+	} else if len(in.Mute) > 0 {
 		s += fmt.Sprintf("[without listeners %v]", in.Mute)
 	}
 	return s
@@ -125,6 +132,9 @@ type Step struct {
 	Script []Outcome `json:"script,omitempty"`
 	// PreCancel: the caller's context is already cancelled when the execution starts
 	PreCancel bool `json:"pre_cancel,omitempty"`
+	// TopLevel: the execution goes through the package-level failsafe.Get / GetWithExecution / GetAsync /
+	// GetWithExecutionAsync (entries 2, 3, 6, 7) instead of an Executor: no context, no completion listeners
+	TopLevel bool `json:"top_level,omitempty"`
 
 	Target int    `json:"target,omitempty"` // pool index for standalone ops
 	D      int64  `json:"d,omitempty"`      // advance
@@ -139,6 +149,9 @@ func (s Step) String() string {
 	case "exec":
 		if s.PreCancel {
 			return fmt.Sprintf("exec(entry=%d key=%q script=%v ctx-already-cancelled)", s.Entry, s.CtxKey, s.Script)
+		}
+		if s.TopLevel {
+			return fmt.Sprintf("exec(entry=%d package-level script=%v)", s.Entry, s.Script)
 		}
 		return fmt.Sprintf("exec(entry=%d key=%q script=%v)", s.Entry, s.CtxKey, s.Script)
 	case "advance":
